@@ -428,6 +428,26 @@ func retBuf(r *regs, got []byte) string {
 	}
 	g0 := uintptr(unsafe.Pointer(&got[:1][0]))
 	g1 := g0 + uintptr(cap(got))
+	// a slice into the memory of a Point / Scalar / Element register is not a fresh value either
+	inside := func(base unsafe.Pointer, size uintptr) bool {
+		b0 := uintptr(base)
+		return g0 < b0+size && b0 < g1
+	}
+	for i := range r.p {
+		if inside(unsafe.Pointer(r.p[i]), pointSize) {
+			return fmt.Sprintf("inside-p%d", i)
+		}
+	}
+	for i := range r.s {
+		if inside(unsafe.Pointer(r.s[i]), unsafe.Sizeof(ed.Scalar{})) {
+			return fmt.Sprintf("inside-s%d", i)
+		}
+	}
+	for i := range r.e {
+		if inside(unsafe.Pointer(r.e[i]), 40) {
+			return fmt.Sprintf("inside-e%d", i)
+		}
+	}
 	for i := range r.b {
 		b := r.b[i]
 		if b == nil || cap(b) == 0 {
